@@ -281,14 +281,24 @@ func ruleWhoWrites(c *Ctx, rule string, pkgRel, typeName string, allowed []strin
 		f := E.fas[fn]
 		var hits []string
 		for _, o := range f.objs {
-			if o.root < 0 || len(o.written) == 0 || o.typ == nil {
+			if o.root < 0 || len(o.written) == 0 {
 				continue
 			}
-			t := o.typ
-			if p, ok := t.Underlying().(*types.Pointer); ok {
-				t = p.Elem()
+			// the struct itself, or memory reached through one of its fields
+			within := false
+			for a := o; a != nil; a = a.parent {
+				t := a.typ
+				if t == nil {
+					continue
+				}
+				if p, ok := t.Underlying().(*types.Pointer); ok {
+					t = p.Elem()
+				}
+				if types.Identical(t, T) {
+					within = true
+				}
 			}
-			if !types.Identical(t, T) {
+			if !within {
 				continue
 			}
 			for p := range o.written {
@@ -405,6 +415,7 @@ func fmtList(xs []string) string { return fmt.Sprint(xs) }
 type fieldWriterSpec struct {
 	pkgRel, typ, field string
 	allowed            []string
+	noneOK             bool // no writer through a parameter at all is fine (field only set in its constructor)
 }
 
 // ruleFieldWriters: only the allowed functions may write (the elements of, or re-assign) the given field.
@@ -481,7 +492,10 @@ func ruleFieldWriters(c *Ctx, rule string, specs []fieldWriterSpec) *RuleResult 
 				r.find(name+":writes "+sp.typ+"."+sp.field, c.pos(fn.Pos()), "%s may write %s.%s (%s) but is not one of %v", name, sp.typ, sp.field, hit, sp.allowed)
 			}
 		}
-		if writers == 0 {
+		if writers == 0 && sp.noneOK {
+			r.inst("%s.%s: no function writes it through a parameter (set only where the value is built)", sp.typ, sp.field)
+			r.oblig(true)
+		} else if writers == 0 {
 			r.undecided("no writer of %s.%s found at all (field renamed or rule lost its anchor)", sp.typ, sp.field)
 		}
 	}
